@@ -87,7 +87,10 @@ LEVEL_TEXT = ('Machine-checked theorems for all configurations, requests and his
               'passes, an explicit None included, replaces the class-level __view_defaults__ value; then the configured default '
               'decides), the trusted-origins setting is the one in force when the request is checked (every verdict of a sequence is the '
               'single-check verdict for that request and the settings of that moment; a revoked origin is refused from the next '
-              'request on), views registered through add_exception_view / add_notfound_view / add_forbidden_view are never '
+              'request on; end to end: in any interleaving of clients with token-showing / rotating view bodies and a setting that '
+              'changes from step to step, each client observes exactly the declarative gate on (its request with the token it '
+              'then holds, the setting of that moment) -- C12_e2e_gate), the aslist model yields non-empty whitespace-free patterns '
+              'that are exactly the non-whitespace characters of the setting in order, views registered through add_exception_view / add_notfound_view / add_forbidden_view are never '
               'checked and an exception view is checked only when its own registration says require_csrf=True, '
               'the documented positional order of set_default_csrf_options is the signature order (fact), '
               'the urlsplit fragment extracts scheme/authority of scheme://authority[/...] and raises exactly on '
